@@ -500,7 +500,31 @@ func genFilterMatches(p *pkgFiles, out *strings.Builder) {
 	fmt.Fprintf(out, "/-- `filter.matches` -/\ndef filter_matches (fmask fwithout : Mask) (hasWithout : Bool) (mask : Mask) : Bool :=\n    %s\n\n", text)
 }
 
-// genToTypes translates the index arithmetic of bitMask256.toTypes.
+// loopShape recognises `for v := range X` and `for v := 0; v < X; v++`: the loop variable, the bound
+// and the body.
+func loopShape(s ast.Stmt) (string, ast.Expr, *ast.BlockStmt, bool) {
+	switch st := s.(type) {
+	case *ast.RangeStmt:
+		if st.Key != nil && st.Value == nil && st.Tok == token.DEFINE {
+			return src(st.Key), st.X, st.Body, true
+		}
+	case *ast.ForStmt:
+		init, ok1 := st.Init.(*ast.AssignStmt)
+		cond, ok2 := st.Cond.(*ast.BinaryExpr)
+		post, ok3 := st.Post.(*ast.IncDecStmt)
+		if ok1 && ok2 && ok3 && init.Tok == token.DEFINE && len(init.Lhs) == 1 && len(init.Rhs) == 1 &&
+			src(init.Rhs[0]) == "0" && cond.Op == token.LSS && src(cond.X) == src(init.Lhs[0]) &&
+			post.Tok == token.INC && src(post.X) == src(init.Lhs[0]) {
+			return src(init.Lhs[0]), cond.Y, st.Body, true
+		}
+	}
+	return "", nil, nil, false
+}
+
+// genToTypes translates the index arithmetic of bitMask256.toTypes.  The roles are recognised by
+// structure, not by name: the outer loop's bound (`bins`), the inner loop's bound (`cnt`) with its
+// default and the one conditional re-assignment (`if COND { cnt = bits }`), and the `uint8(…)`
+// conversion producing the component ID.
 func genToTypes(p *pkgFiles, out *strings.Builder) {
 	where := "mask256.go:bitMask256.toTypes"
 	fd := p.findFunc("mask256.go", "bitMask256", "toTypes")
@@ -508,66 +532,95 @@ func genToTypes(p *pkgFiles, out *strings.Builder) {
 		problem("%s: not found", where)
 		return
 	}
-	ints := map[string]string{"totalIDs": "totalIDs", "wordSize": "64", "i": "i", "bins": "(toTypes_bins totalIDs)", "bits": "(toTypes_bits totalIDs)"}
-	var binsE, bitsE ast.Expr
-	var outer *ast.RangeStmt
+	// single assignments `x := e` at the top level of the function
+	top := map[string]ast.Expr{}
+	var outerVar string
+	var outerBound ast.Expr
+	var outerBody *ast.BlockStmt
 	for _, s := range fd.Body.List {
-		switch st := s.(type) {
-		case *ast.AssignStmt:
-			if len(st.Lhs) == 1 && len(st.Rhs) == 1 {
-				switch src(st.Lhs[0]) {
-				case "bins":
-					binsE = st.Rhs[0]
-				case "bits":
-					bitsE = st.Rhs[0]
-				}
-			}
-		case *ast.RangeStmt:
-			outer = st
+		if st, ok := s.(*ast.AssignStmt); ok && st.Tok == token.DEFINE && len(st.Lhs) == 1 && len(st.Rhs) == 1 {
+			top[src(st.Lhs[0])] = st.Rhs[0]
+		}
+		if v, bnd, body, ok := loopShape(s); ok && outerBody == nil {
+			outerVar, outerBound, outerBody = v, bnd, body
 		}
 	}
-	if binsE == nil || bitsE == nil || outer == nil || src(outer.X) != "bins" {
-		problem("%s: expected `bins := …`, `bits := …` and `for i := range bins`", where)
+	resolve := func(e ast.Expr) (string, ast.Expr) { // an identifier bound at the top → its definition
+		if id, ok := e.(*ast.Ident); ok {
+			if d, ok := top[id.Name]; ok {
+				return id.Name, d
+			}
+		}
+		return "", e
+	}
+	if outerBody == nil {
+		problem("%s: expected an outer loop over the words in use", where)
 		return
 	}
-	b1, _ := trNat(binsE, nil, map[string]string{"totalIDs": "totalIDs", "wordSize": "64"}, where)
-	b2, _ := trNat(bitsE, nil, map[string]string{"totalIDs": "totalIDs", "wordSize": "64"}, where)
-	fmt.Fprintf(out, "/-- `bins` of `toTypes`: number of 64-bit words scanned -/\ndef toTypes_bins (totalIDs : Nat) : Nat := %s\n\n", b1)
-	fmt.Fprintf(out, "/-- `bits` of `toTypes` -/\ndef toTypes_bits (totalIDs : Nat) : Nat := %s\n\n", b2)
-	// inner: cnt := wordSize; if COND { cnt = bits }; for j := range cnt { id := uint8(i*wordSize + j) …
+	binsName, binsE := resolve(outerBound)
+	// inner: cnt := DEFAULT; if COND { cnt = R }; for j := range cnt { … uint8(i*wordSize + j) …
+	var innerVar string
+	var innerBound ast.Expr
+	var innerBody *ast.BlockStmt
+	local := map[string]ast.Expr{}
+	for _, s := range outerBody.List {
+		if st, ok := s.(*ast.AssignStmt); ok && st.Tok == token.DEFINE && len(st.Lhs) == 1 && len(st.Rhs) == 1 {
+			local[src(st.Lhs[0])] = st.Rhs[0]
+		}
+		if v, bnd, body, ok := loopShape(s); ok && innerBody == nil {
+			innerVar, innerBound, innerBody = v, bnd, body
+		}
+	}
+	if innerBody == nil {
+		problem("%s: expected an inner loop over the bits of a word", where)
+		return
+	}
+	cntName := src(innerBound)
+	if d, ok := local[cntName]; !ok || src(d) != "wordSize" {
+		problem("%s: expected `%s := wordSize` before the inner loop", where, cntName)
+		return
+	}
 	var cntCond ast.Expr
-	var inner *ast.RangeStmt
-	var idExpr ast.Expr
-	for _, s := range outer.Body.List {
-		switch st := s.(type) {
-		case *ast.IfStmt:
-			if len(st.Body.List) == 1 && src(st.Body.List[0]) == "cnt = bits" {
+	var bitsName string
+	var bitsE ast.Expr
+	for _, s := range outerBody.List {
+		if st, ok := s.(*ast.IfStmt); ok && st.Else == nil && st.Init == nil && len(st.Body.List) == 1 {
+			if as, ok := st.Body.List[0].(*ast.AssignStmt); ok && as.Tok == token.ASSIGN && len(as.Lhs) == 1 && src(as.Lhs[0]) == cntName {
+				if cntCond != nil {
+					problem("%s: `%s` is re-assigned more than once", where, cntName)
+					return
+				}
 				cntCond = st.Cond
+				bitsName, bitsE = resolve(as.Rhs[0])
 			}
-		case *ast.RangeStmt:
-			inner = st
 		}
 	}
-	if cntCond == nil || inner == nil || src(inner.X) != "cnt" {
-		problem("%s: expected `if … { cnt = bits }` and `for j := range cnt`", where)
+	if cntCond == nil || binsName == "" || bitsName == "" {
+		problem("%s: expected `bins := …`, `bits := …`, `for i := range bins` and `if … { cnt = bits }`", where)
 		return
 	}
-	ast.Inspect(inner, func(n ast.Node) bool {
-		if cl, ok := n.(*ast.CompositeLit); ok && src(cl.Type) == "ID" && len(cl.Elts) == 1 {
-			if kv, ok := cl.Elts[0].(*ast.KeyValueExpr); ok {
-				if call, ok := kv.Value.(*ast.CallExpr); ok && src(call.Fun) == "uint8" && len(call.Args) == 1 {
-					idExpr = call.Args[0]
-				}
+	var idExpr ast.Expr
+	ast.Inspect(innerBody, func(n ast.Node) bool {
+		if call, ok := n.(*ast.CallExpr); ok && src(call.Fun) == "uint8" && len(call.Args) == 1 {
+			if idExpr != nil && src(idExpr) != src(call.Args[0]) {
+				problem("%s: more than one `uint8(…)` conversion in the inner loop", where)
 			}
+			idExpr = call.Args[0]
 		}
 		return true
 	})
 	if idExpr == nil {
-		problem("%s: expected `ID{id: uint8(…)}` in the inner loop", where)
+		problem("%s: expected `uint8(…)` in the inner loop", where)
 		return
 	}
+	base := map[string]string{"totalIDs": "totalIDs", "wordSize": "64"}
+	b1, _ := trNat(binsE, nil, base, where)
+	b2, _ := trNat(bitsE, nil, base, where)
+	fmt.Fprintf(out, "/-- `bins` of `toTypes`: number of 64-bit words scanned -/\ndef toTypes_bins (totalIDs : Nat) : Nat := %s\n\n", b1)
+	fmt.Fprintf(out, "/-- `bits` of `toTypes` -/\ndef toTypes_bits (totalIDs : Nat) : Nat := %s\n\n", b2)
+	ints := map[string]string{"totalIDs": "totalIDs", "wordSize": "64", outerVar: "i", binsName: "(toTypes_bins totalIDs)", bitsName: "(toTypes_bits totalIDs)"}
 	cond := trCmp(cntCond, ints, where)
-	idx, _ := trNat(idExpr, nil, map[string]string{"i": "i", "j": "j", "wordSize": "64"}, where)
+	idx, _ := trNat(idExpr, nil, map[string]string{outerVar: "i", innerVar: "j", "wordSize": "64"}, where)
 	fmt.Fprintf(out, "/-- number of bits scanned in word `i` -/\ndef toTypes_cnt (totalIDs i : Nat) : Nat := if %s then toTypes_bits totalIDs else 64\n\n", cond)
 	fmt.Fprintf(out, "/-- component ID produced for word `i`, bit `j` (before the `uint8` conversion) -/\ndef toTypes_id (i j : Nat) : Nat := %s\n\n", idx)
 }
